@@ -9,15 +9,11 @@ transcription (`Cfg.pinned = false`); the `pinned_*` theorems show that the pinn
 (`Cfg.pinned = true`, findings C36-1/2/3) does not satisfy them.
 
 Specification side (Proofs/Format.lean): `horner r cs` is the positional value of a digit string,
-`digitVal` the value of one digit character, `isDec c` = "c is a decimal digit".
+`digitVal` the value of one digit character, `isDec c` = "c is a decimal digit"; `readInt`
+(Proofs/FormatThms.lean) reads an optionally signed decimal string by Horner's rule.
 -/
 namespace Scryer.Format
 open Scryer
-
-/-- reads an optionally signed decimal string. -/
-def readInt : List Char → Int
-  | '-' :: cs => -(horner 10 cs : Int)
-  | cs => (horner 10 cs : Int)
 
 /-! ## `~d`, `~Nd` -/
 
@@ -337,10 +333,6 @@ theorem C36_Nf_shape (n : Nat) (hn : 0 < n) (p : FParts) (h0 : 0 ≤ p.frr0) (h1
         simp [he, this]
 
 /-! ## the pinned library violates the statements above (findings C36-1, C36-2, C36-3) -/
-
-theorem natChars_small : natChars 5 = ['5'] ∧ natChars 123 = ['1', '2', '3'] ∧
-    natChars 123456 = ['1', '2', '3', '4', '5', '6'] := by
-  refine ⟨?_, ?_, ?_⟩ <;> simp [natChars, digitsLE_pos, digitsLE_zero, digitChar]
 
 /-- C36-1: pinned `~2d` of -5 is `0.-5` and `~3d` of -123 is `-.123`; repaired `-0.05`, `-0.123`. -/
 theorem C36_pinned_Nd_violates :
